@@ -152,6 +152,9 @@ func (r *run) buildFn(def Fn) (fs *fnState) {
 		}
 		return fs
 	}
+	if r.req.M2 != "" {
+		return r.buildFnM2(def, fs)
+	}
 	defer func() {
 		if p := recover(); p != nil {
 			if bt, ok := p.(badTypes); ok {
